@@ -79,6 +79,8 @@ type gnet struct {
 	partition bool                             // before stabilisation honest<->honest links are (very) slow
 	slow      func(from, to int, msg *gpbft.GMessage) bool // finer-grained: which honest<->honest transmissions are slow
 	onSend    func(from int, msg *gpbft.GMessage) // adversary hook: sees every first transmission of an honest node
+	delay     func(from, to int, msg *gpbft.GMessage) (time.Duration, bool) // before stabilisation: explicit delay of one transmission
+	stopAt    time.Time                                                      // run() returns once the clock reaches this time
 }
 
 var _ gpbft.Host = (*gnode)(nil)
@@ -154,6 +156,12 @@ func (g *gnet) send(from int, msg *gpbft.GMessage, first bool) {
 			continue
 		}
 		d := time.Duration(0)
+		if !g.stabilised && g.delay != nil && to.idx != from {
+			if dd, ok := g.delay(from, to.idx, msg); ok {
+				g.pool = append(g.pool, &pendingMsg{to: to.idx, msg: msg, from: from, ready: g.now.Add(dd)})
+				continue
+			}
+		}
 		if !g.stabilised && to.idx != from && g.nodes[from].honest && to.honest && (g.partition || (g.slow != nil && g.slow(from, to.idx, msg))) {
 			g.pool = append(g.pool, &pendingMsg{to: to.idx, msg: msg, from: from, ready: g.now.Add(100000 * time.Second)})
 			continue
@@ -320,6 +328,9 @@ func (g *gnet) fireAlarm(n *gnode) {
 // run until every started honest node decided or the step budget is exhausted. Returns true if all decided.
 func (g *gnet) run(maxSteps int, byzAct func(g *gnet)) bool {
 	for g.steps = 0; g.steps < maxSteps; g.steps++ {
+		if !g.stopAt.IsZero() && !g.now.Before(g.stopAt) {
+			return g.allDecided()
+		}
 		if byzAct != nil && g.r.chance(25) {
 			byzAct(g)
 		}
